@@ -94,18 +94,21 @@ def run(prop, tier, seed, replay=None, only_items=None):
         plan = mod.plan(tier, seed)
         # a plan is a list of items, or {"hashseed": [items]} for hash-seed sweeps
         groups = list(plan.items()) if isinstance(plan, dict) else [("0", plan)]
+        if tier == "thorough" and getattr(mod, "PYTEST_TIER", True):
+            # first, so that it starts at once on a worker of its own
+            groups = [("0", [["pytest-tier"]])] + groups
     watchdog = getattr(mod, "WATCHDOG_S", {"quick": 600, "thorough": 7200})[tier]
     soft = getattr(mod, "SOFT_DEADLINE_S", {}).get(tier)
     work = tempfile.mkdtemp(prefix=f"vmon-{prop}-", dir=os.path.join(HERE, ".work") if os.path.isdir(os.path.join(HERE, ".work")) else None)
     procs = []
-    for hs, items in groups:
+    for gi, (hs, items) in enumerate(groups):
         n = max(1, min(NCPU, len(items)))
         for i in range(n):
             sub = items[i::n]
             if not sub:
                 continue
-            itf = os.path.join(work, f"items-{hs}-{i}.json")
-            out = os.path.join(work, f"out-{hs}-{i}.json")
+            itf = os.path.join(work, f"items-{gi}-{hs}-{i}.json")
+            out = os.path.join(work, f"out-{gi}-{hs}-{i}.json")
             with open(itf, "w") as f:
                 json.dump({"items": sub, "soft_deadline_s": soft}, f)
             procs.append((hs, i, out, itf, n))
